@@ -3541,13 +3541,193 @@ theorem exportOut_projOut (x : Out) : exportOut (projOut x) = exportOut x := by
   rw [projOut_eq]
   simp [exportOut, expName_normInst]
 
-theorem exportSolid_projSolid (mb w : Bool) (s : Solid) (hnd : ∀ sd ∈ s.sides, sd.disp = none) :
+
+
+/-! ### the second export of a displacement -/
+
+theorem mapIdx_eq_map {α β} (f : α → β) (k : Nat) (l : List α) : mapIdx (fun _ a => f a) k l = l.map f := by
+  induction l generalizing k with
+  | nil => rfl
+  | cons a r ih => simp [mapIdx, ih]
+
+theorem mapIdx_take {α β} (g : Nat → α → β) (k n : Nat) (l : List α) :
+    (mapIdx g k l).take n = mapIdx g k (l.take n) := by
+  induction l generalizing k n with
+  | nil => simp [mapIdx]
+  | cons a r ih =>
+    cases n with
+    | zero => simp [mapIdx]
+    | succ n => simp [mapIdx, ih]
+
+theorem mapIdx_drop {α β} (g : Nat → α → β) (k n : Nat) (l : List α) :
+    (mapIdx g k l).drop n = mapIdx g (k + n) (l.drop n) := by
+  induction l generalizing k n with
+  | nil => simp [mapIdx]
+  | cons a r ih =>
+    cases n with
+    | zero => simp [mapIdx]
+    | succ n =>
+      simp only [mapIdx, List.drop_succ_cons, ih]
+      congr 1; omega
+
+theorem rowsOf_map {α β} (f : α → β) (size n : Nat) (l : List α) :
+    rowsOf size n (l.map f) = (rowsOf size n l).map (·.map f) := by
+  induction n generalizing l with
+  | zero => rfl
+  | succ n ih =>
+    simp only [rowsOf, List.map_cons, List.map_take]
+    rw [← List.map_drop, ih]
+
+theorem rowsetKids_congr (size : Nat) (l1 l2 : List DVert) (toks : DVert → List Str)
+    (h : l1.map toks = l2.map toks) : rowsetKids size l1 toks = rowsetKids size l2 toks := by
+  unfold rowsetKids
+  congr 1
+  have e : ∀ l : List DVert, (rowsOf size size l).map (fun r => r.flatMap toks)
+      = (rowsOf size size (l.map toks)).map List.flatten := by
+    intro l
+    rw [rowsOf_map, List.map_map]
+    apply List.map_congr_left
+    intro r _
+    simp [List.flatMap_def]
+  rw [e l1, e l2, h]
+
+theorem map_mapIdx_toks (g : Nat → DVert → DVert) (toks : DVert → List Str) (l : List DVert)
+    (h : ∀ i a, toks (g i a) = toks a) : (mapIdx g 0 l).map toks = l.map toks := by
+  rw [map_mapIdx]
+  have : mapIdx (fun i a => toks (g i a)) 0 l = mapIdx (fun _ a => toks a) 0 l :=
+    mapIdx_congr _ _ 0 l (fun j a _ => h _ a)
+  rw [this, mapIdx_eq_map]
+
+theorem flatMap_mapIdx_congr (g : Nat → DVert → DVert) (t : DVert → List Str) (k : Nat) (r : List DVert)
+    (h : ∀ x a, r[x]? = some a → t (g (k + x) a) = t a) : (mapIdx g k r).flatMap t = r.flatMap t := by
+  induction r generalizing k with
+  | nil => rfl
+  | cons a rs ih =>
+    simp only [mapIdx, List.flatMap_cons]
+    have h0 := h 0 a (by simp)
+    simp only [Nat.add_zero] at h0
+    rw [h0, ih (k + 1) (fun x b hb => by
+      have := h (x + 1) b (by simpa using hb)
+      have e : k + (x + 1) = k + 1 + x := by omega
+      rw [e] at this; exact this)]
+
+theorem triRows_congr (size c : Nat) (hc : c ≤ size) (g : Nat → DVert → DVert) (t : DVert → List Str)
+    (n y : Nat) (l : List DVert)
+    (H : ∀ y' x a, y ≤ y' → y' < y + n → x < c → t (g (y' * size + x) a) = t a) :
+    (rowsOf size n (mapIdx g (y * size) l)).map (fun r => (r.take c).flatMap t)
+      = (rowsOf size n l).map (fun r => (r.take c).flatMap t) := by
+  induction n generalizing y l with
+  | zero => rfl
+  | succ n ih =>
+    simp only [rowsOf, List.map_cons]
+    congr 1
+    · rw [mapIdx_take, mapIdx_take]
+      apply flatMap_mapIdx_congr
+      intro x a ha
+      have hx : x < c := by
+        have := lt_of_getElem? ha
+        simp only [List.length_take] at this
+        omega
+      exact H y x a (Nat.le_refl _) (by omega) hx
+    · rw [mapIdx_drop]
+      have e : y * size + size = (y + 1) * size := by rw [Nat.add_mul]; simp
+      rw [e]
+      exact ih (y + 1) (l.drop size) (fun y' x a h1 h2 h3 => H y' x a (by omega) (by omega) h3)
+
+theorem triKids_proj (keep : Bool) (size : Nat) (l : List DVert) :
+    triKids size (mapIdx (projVert keep size) 0 l) = triKids size l := by
+  unfold triKids
+  congr 1
+  have := triRows_congr size (size - 1) (Nat.sub_le _ _) (projVert keep size) triToks (size - 1) 0 l (by
+    intro y' x a _ hy hx
+    have hxs : x < size := by omega
+    have h1 := idx_mod size y' x hxs
+    have h2 := idx_div size y' x hxs
+    have hx1 : (x == size - 1) = false := by simp only [beq_eq_false_iff_ne, ne_eq]; omega
+    have hy1 : (y' == size - 1) = false := by simp only [beq_eq_false_iff_ne, ne_eq]; omega
+    simp only [projVert, triToks, h1, h2, hx1, hy1, Bool.or_self, Bool.false_eq_true, if_false])
+  simpa using this
+
+theorem hasBlend_proj (keep : Bool) (size : Nat) (l : List DVert) :
+    hasBlend (mapIdx (projVert keep size) 0 l) = (keep && hasBlend l) := by
+  unfold hasBlend
+  have : ∀ k, (mapIdx (projVert keep size) k l).any (fun v => !(v.blend.toks.all isZeroTok))
+      = (keep && l.any (fun v => !(v.blend.toks.all isZeroTok))) := by
+    induction l with
+    | nil => intro k; simp [mapIdx]
+    | cons a r ih =>
+      intro k
+      simp only [mapIdx, List.any_cons, ih]
+      cases keep
+      · simp [projVert, v4zero, V4.toks, isZeroTok]
+      · simp [projVert]
+  exact this 0
+
+theorem colorToks_proj (size j i : Nat) (a : DVert) (hi : i < 4) :
+    colorToks i (projVert true size j a) = colorToks i a := by
+  rw [colorToks_eq, colorToks_eq]
+  simp only [projVert, if_true, colorOf, Option.getD_some]
+  have : i = 0 ∨ i = 1 ∨ i = 2 ∨ i = 3 := by omega
+  rcases this with rfl | rfl | rfl | rfl <;> simp [List.range, List.range.loop]
+
+theorem exportDisp_projDisp (mb : Bool) (d : Disp) : exportDisp mb (projDisp mb d) = exportDisp mb d := by
+  have hproj : ∀ (keep : Bool) (toks : DVert → List Str) (h : ∀ i a, toks (projVert keep (dispSize d.power) i a) = toks a),
+      rowsetKids (dispSize d.power) (mapIdx (projVert keep (dispSize d.power)) 0 d.verts) toks
+        = rowsetKids (dispSize d.power) d.verts toks :=
+    fun keep toks h => rowsetKids_congr _ _ _ _ (map_mapIdx_toks _ toks d.verts h)
+  have base : ∀ keep : Bool,
+      rowsetKids (dispSize d.power) (mapIdx (projVert keep (dispSize d.power)) 0 d.verts) (·.normal.toks)
+        = rowsetKids (dispSize d.power) d.verts (·.normal.toks) ∧
+      rowsetKids (dispSize d.power) (mapIdx (projVert keep (dispSize d.power)) 0 d.verts) (fun v => [v.dist])
+        = rowsetKids (dispSize d.power) d.verts (fun v => [v.dist]) ∧
+      rowsetKids (dispSize d.power) (mapIdx (projVert keep (dispSize d.power)) 0 d.verts) (·.offset.toks)
+        = rowsetKids (dispSize d.power) d.verts (·.offset.toks) ∧
+      rowsetKids (dispSize d.power) (mapIdx (projVert keep (dispSize d.power)) 0 d.verts) (·.offsetNorm.toks)
+        = rowsetKids (dispSize d.power) d.verts (·.offsetNorm.toks) ∧
+      rowsetKids (dispSize d.power) (mapIdx (projVert keep (dispSize d.power)) 0 d.verts) (fun v => [v.alpha])
+        = rowsetKids (dispSize d.power) d.verts (fun v => [v.alpha]) := by
+    intro keep
+    exact ⟨hproj _ _ (by intro i a; simp [projVert]), hproj _ _ (by intro i a; simp [projVert]),
+      hproj _ _ (by intro i a; simp [projVert]), hproj _ _ (by intro i a; simp [projVert]),
+      hproj _ _ (by intro i a; simp [projVert])⟩
+  cases mb with
+  | false =>
+    obtain ⟨b1, b2, b3, b4, b5⟩ := base false
+    simp only [exportDisp, projDisp, dispHead, Bool.false_and, Bool.false_eq_true, if_false, b1, b2, b3, b4, b5,
+      triKids_proj]
+  | true =>
+    cases hb : hasBlend d.verts with
+    | false =>
+      obtain ⟨b1, b2, b3, b4, b5⟩ := base false
+      simp only [exportDisp, projDisp, dispHead, Bool.true_and, hb, Bool.false_eq_true, if_false, b1, b2, b3, b4, b5,
+        triKids_proj, hasBlend_proj, Bool.false_and]
+    | true =>
+      obtain ⟨b1, b2, b3, b4, b5⟩ := base true
+      simp only [exportDisp, projDisp, dispHead, Bool.true_and, hb, if_true, b1, b2, b3, b4, b5,
+        triKids_proj, hasBlend_proj, Bool.and_self]
+      rw [hproj true (·.blend.toks) (by intro i a; simp [projVert]),
+        hproj true (·.malpha.toks) (by intro i a; simp [projVert]),
+        hproj true (colorToks 0) (fun i a => colorToks_proj _ i 0 a (by omega)),
+        hproj true (colorToks 1) (fun i a => colorToks_proj _ i 1 a (by omega)),
+        hproj true (colorToks 2) (fun i a => colorToks_proj _ i 2 a (by omega)),
+        hproj true (colorToks 3) (fun i a => colorToks_proj _ i 3 a (by omega))]
+
+
+theorem exportSide_projSide (mb : Bool) (s : Side) : exportSide mb (projSide mb s) = exportSide mb s := by
+  cases hd : s.disp with
+  | none => simp [projSide, exportSide, hd]
+  | some d =>
+    by_cases hp : d.power > 0
+    · have : (projDisp mb d).power > 0 := hp
+      simp [projSide, exportSide, hd, hp, this, exportDisp_projDisp]
+    · simp [projSide, exportSide, hd, hp]
+
+theorem exportSolid_projSolid (mb w : Bool) (s : Solid) :
     exportSolid mb w (projSolid mb w s) = exportSolid mb w s := by
   rw [projSolid_eq mb w s]
-  have hsides : s.sides.map (projSide mb) = s.sides := by
-    have := List.map_congr_left (l := s.sides) (f := projSide mb) (g := id)
-      (fun x hx => projSide_of_nodisp mb x (hnd x hx))
-    simpa using this
+  have hsides : (s.sides.map (projSide mb)).map (exportSide mb) = s.sides.map (exportSide mb) := by
+    rw [List.map_map]
+    exact List.map_congr_left (fun x _ => exportSide_projSide mb x)
   cases w <;> simp [exportSolid, solidRT, solidBlock, solidEditor, isort_idem intLe_ok, hsides]
 
 theorem go_keeps (k v : Str) (ks : List (Str × Str)) (kv : Str × Str) (hm : kv ∈ ks)
@@ -3579,12 +3759,11 @@ def EntFP (w : Bool) (e : Ent) : Prop := if w then e.hidden = false else e.logic
 /-- no face of the entity carries displacement data (the second-export theorem does not cover it yet) -/
 abbrev EntNoDisp (e : Ent) : Prop := ∀ s ∈ e.solids, ∀ sd ∈ s.sides, sd.disp = none
 
-theorem exportEnt_projEnt (mb w : Bool) (groups : List Group) (e : Ent) (h : EntOK1 e) (hf : EntFP w e)
-    (hnd : EntNoDisp e) :
+theorem exportEnt_projEnt (mb w : Bool) (groups : List Group) (e : Ent) (h : EntOK1 e) (hf : EntFP w e) :
     exportEnt mb w groups (projEnt mb w e) = exportEnt mb w groups e := by
   have hs : (e.solids.map (projSolid mb w)).map (exportSolid mb w) = e.solids.map (exportSolid mb w) := by
     rw [List.map_map]
-    exact List.map_congr_left (fun s hs => exportSolid_projSolid mb w s (hnd s hs))
+    exact List.map_congr_left (fun s hs => exportSolid_projSolid mb w s)
   have ho : (e.outputs.map projOut).map exportOut = e.outputs.map exportOut := by
     rw [List.map_map]
     exact List.map_congr_left (fun s _ => exportOut_projOut s)
@@ -3632,18 +3811,18 @@ theorem spawnForExport_project (o : ExportOpts) (m : VMap) (h : MapOK1 m) :
   rw [lhs, hk, hps]
 
 theorem exportTree_project (o : ExportOpts) (m : VMap) (h : MapOK1 m)
-    (hl : ∀ e ∈ m.ents, e.logicalPos ≠ []) (hnd : EntNoDisp m.spawn ∧ ∀ e ∈ m.ents, EntNoDisp e) :
+    (hl : ∀ e ∈ m.ents, e.logicalPos ≠ []) :
     exportTree { o with incVersion := false } (project o m) = exportTree o m := by
   have hsp := entOK1_spawnForExport o m h.spawn
   have hw : exportEnt o.multiblend true m.groups (spawnForExport { o with incVersion := false } (project o m))
       = exportEnt o.multiblend true m.groups (spawnForExport o m) := by
     rw [spawnForExport_project o m h]
-    exact exportEnt_projEnt _ _ _ _ hsp (by simp only [EntFP, if_true]; exact h.spawnVisible) hnd.1
+    exact exportEnt_projEnt _ _ _ _ hsp (by simp only [EntFP, if_true]; exact h.spawnVisible)
   have he : (m.ents.map (projEnt o.multiblend false)).map (exportEnt o.multiblend false [])
       = m.ents.map (exportEnt o.multiblend false []) := by
     rw [List.map_map]
     exact List.map_congr_left (fun e he => exportEnt_projEnt _ _ _ e (h.ents e he)
-      (by simp only [EntFP, Bool.false_eq_true, if_false]; exact hl e he) (hnd.2 e he))
+      (by simp only [EntFP, Bool.false_eq_true, if_false]; exact hl e he))
   have hver : exportedVer { o with incVersion := false } (project o m) = exportedVer o m := by
     cases hmin : o.minimal <;> simp [exportedVer, project, hmin]
   have hgroups : (project o m).groups = m.groups := by cases hmin : o.minimal <;> simp [project, hmin]
